@@ -20,6 +20,22 @@ fn main() {
                 other => println!("{:?}", other),
             }
         }
+        Some("c17-decode") => {
+            // debugging aid: decode a libFuzzer artefact of the c17_codegen target
+            let data = std::fs::read(&args[2]).expect("artefact");
+            let pool = tape::sample_tapes(1, 0xF00D, 48, 2048);
+            let mut t = tape::Tape::new(&data);
+            let w = &pool[t.below(pool.len())];
+            let adv = props::c17::gen_adversarial(&mut t, w, &mut cases::GenStats::default());
+            println!("kind: {}\n--- schema ({})\n{}\n--- query\n{}", adv.kind, adv.ext, adv.schema, adv.query);
+            if args.get(3).map(|s| s == "run").unwrap_or(false) {
+                let scratch = e2::Scratch::new("c17dec");
+                let sp = scratch.file(&adv.schema, adv.ext);
+                let t0 = std::time::Instant::now();
+                let o = e2::Pool::default().run(&[e2::Job { schema_path: sp, query: e2::QuerySrc::Text(adv.query), opts: Default::default(), cwd: None }]);
+                println!("--- outcome after {:?}: {}", t0.elapsed(), o[0].short());
+            }
+        }
         Some("setup") => {
             // warm every shared build: CLI binary, consumer-crate dependencies (with and without serde)
             if let Err(e) = e3::ensure_cli_built() {
